@@ -191,7 +191,7 @@ impl Prop for C11 {
         all.extend(s.alts.iter().flatten());
         crosscheck_docs(&all)?;
 
-        let want = Want { renders: true, render_twice: false, obs: false };
+        let want = Want { renders: true, render_twice: false, obs: false, obs_sorted: false };
         let outs = run_session(s, &want)?;
         let trace = trace_hash(&outs);
         let mut violation = None;
